@@ -58,6 +58,11 @@ def run_variant(v):
             named = v.get("expect", "") in out
             ok = p.returncode == 1 and named
             why = "" if ok else "exit=%d, expected role %r %s" % (p.returncode, v.get("expect"), "named" if named else "not named")
+        elif v["kind"] == "unfollowable":
+            # a behaviour-preserving refactoring the engine cannot follow: must be reported as ANALYSIS-ERROR (exit 2),
+            # never as a violation
+            ok = p.returncode in (0, 2) and "VIOLATION" not in out
+            why = "" if ok else "exit=%d: a refactoring the engine cannot follow was reported as a violation" % p.returncode
         else:
             ok = p.returncode == 0
             why = "" if ok else "exit=%d on a behaviour-preserving edit" % p.returncode
